@@ -6,9 +6,9 @@ CONSTANTS
   MaxOps = 2
   MaxSegs = 3
   Bases = {"/api"}
-  TemplateIds = {"ak=x", "vxy", "k=xb", "ax", "xb"}
+  TemplateIds = {"ak=x", "vxy", "k=xb", "ax"}
   OpMethods = {"GET", "POST"}
   ReqMethods = {"get", "POST"}
-  SegIds = {"a", "b", "api", "k=:", "k=a", "k=", "v:", "v"}
+  SegIds = {"a", "api", "k=:", "k=a", "k=", "v:", "v"}
 INVARIANTS PropertyHolds
 CHECK_DEADLOCK FALSE
